@@ -8,6 +8,7 @@ package main
 
 import (
 	"fmt"
+	"reflect"
 	"strings"
 
 	"github.com/elliotchance/gedcom/v39"
@@ -157,6 +158,114 @@ func runPV(r *vlib.Rec, lo, hi int64) {
 			r.Nontrivial("pv|" + k.Query + "|" + k.Doc)
 			if sig != "" {
 				r.Fail(sig, what, k)
+			}
+		}
+	}
+}
+
+// ---- the same engine on the same document object, edited in between ----
+
+type pvEdit struct {
+	Name string
+	Do   func(d *gedcom.Document)
+}
+
+var pvEdits = []pvEdit{
+	{"nothing", func(d *gedcom.Document) {}},
+	{"AddIndividual", func(d *gedcom.Document) { d.AddIndividual("I99", gedcom.NewNameNode("Zed /Zulu/")) }},
+	{"DeleteNode(first individual)", func(d *gedcom.Document) {
+		if is := d.Individuals(); len(is) > 0 {
+			d.DeleteNode(is[0])
+		}
+	}},
+	{"first individual AddName", func(d *gedcom.Document) {
+		if is := d.Individuals(); len(is) > 0 {
+			is[0].AddName("Zed /Zulu/")
+		}
+	}},
+	{"last individual DeleteNode(first child)", func(d *gedcom.Document) {
+		if is := d.Individuals(); len(is) > 0 && len(is[len(is)-1].Nodes()) > 0 {
+			i := is[len(is)-1]
+			i.DeleteNode(i.Nodes()[0])
+		}
+	}},
+	{"AddFamily", func(d *gedcom.Document) { d.AddFamily("F99") }},
+}
+
+// spoil overwrites what the caller was handed (a caller may do with a result what it likes).
+func spoil(v interface{}) {
+	defer func() { recover() }()
+	rv := reflect.ValueOf(v)
+	if rv.Kind() == reflect.Slice && rv.Len() > 0 && rv.Index(0).CanSet() {
+		rv.Index(0).Set(reflect.Zero(rv.Index(0).Type()))
+	}
+	if rv.Kind() == reflect.Map {
+		for _, k := range rv.MapKeys() {
+			rv.SetMapIndex(k, reflect.Value{})
+		}
+	}
+}
+
+// judgePVEdit: parse once; evaluate on a document; spoil the returned value; edit the document through the
+// API; evaluate again with the same engine on the same document object. Every answer must be what the Go API
+// says about a fresh decode of the document's text at that moment (and what a newly parsed engine says).
+func judgePVEdit(pi int, dn string, e1, e2 int) (sig, what string) {
+	p := pvPrograms()[pi]
+	var eng *q.Engine
+	var err error
+	if pn, msg, _ := vlib.Try(func() { eng, err = q.NewParser().ParseString(p.Text) }); pn || err != nil {
+		return "engine-error-on-defined-query:variables", fmt.Sprintf("%q does not parse: %v %s", p.Text, err, msg)
+	}
+	doc := decode(dn)
+	history := "evaluate"
+	for step, e := range []int{-1, e1, e2} {
+		if e >= 0 {
+			pvEdits[e].Do(doc)
+			history += ", " + pvEdits[e].Name + ", evaluate"
+		}
+		var got interface{}
+		if pn, msg, _ := vlib.Try(func() { got, err = eng.Evaluate([]*gedcom.Document{doc}) }); pn {
+			return "", "engine panic (C15): " + msg
+		}
+		if err != nil {
+			return "engine-error-on-defined-query:variables", fmt.Sprintf("%q on %s (%s): %v", p.Text, dn, history, err)
+		}
+		g, e1 := normalise(got)
+		fresh, derr := gedcom.NewDocumentFromString(doc.String())
+		if derr != nil {
+			return "", "text not decodable"
+		}
+		w, e2 := normalise(p.Ref(fresh))
+		if e1 != nil || e2 != nil {
+			return "", "not json"
+		}
+		if !sameJSON(g, w) {
+			s := "result-differs:variable-per-item"
+			if step > 0 {
+				s = "result-differs:engine-reused-on-the-same-document"
+			}
+			return s, fmt.Sprintf("%q on %s, one engine, one document object (%s; every returned value overwritten by the caller):\n engine: %s\n Go API on a fresh decode of the document's text: %s", p.Text, dn, history, js(g), js(w))
+		}
+		spoil(got)
+	}
+	return "", ""
+}
+
+func runPVEdit(r *vlib.Rec, lo, hi int64) {
+	for pi := lo; pi < hi; pi++ {
+		for _, dn := range pvDocs {
+			for e1 := range pvEdits {
+				for e2 := range pvEdits {
+					r.Eval()
+					r.Count("same-document-reuse")
+					k := kase{Query: pvPrograms()[pi].Text, Doc: fmt.Sprintf("%s,%d,%d", dn, e1, e2), Prog: int(pi), Depth: -3}
+					r.Enter(k)
+					sig, what := judgePVEdit(int(pi), dn, e1, e2)
+					r.Nontrivial("pve|" + k.Query + "|" + k.Doc)
+					if sig != "" {
+						r.Fail(sig, what, k)
+					}
+				}
 			}
 		}
 	}
